@@ -36,6 +36,11 @@ Fixpoint prep_expr (n : N) (e : expr) {struct e} : expr * N :=
     | [] => ([], n)
     | x :: r => let '(x', n1) := prep_expr n x in let '(r', n2) := pl n1 r in (x' :: r', n2)
     end in
+  let prep_stmts := fix pss (n : N) (l : list stmt) {struct l} : list stmt * N :=
+    match l with
+    | [] => ([], n)
+    | x :: r => let '(x', n1) := prep_stmt n x in let '(r', n2) := pss n1 r in (x' :: r', n2)
+    end in
   match e with
   | ENil | ETrue | EFalse | ENum _ | EStr _ | EVar _ | ESelf | ECapSelf | ESuperGet _ => (e, n)
   | EInterp parts =>
@@ -96,15 +101,12 @@ Fixpoint prep_expr (n : N) (e : expr) {struct e} : expr * N :=
                  end in
     (ELambda (lambda_name n :: params) body', N.succ n)
   end
-with prep_stmts (n : N) (ss : list stmt) {struct ss} : list stmt * N :=
-  match ss with
-  | [] => ([], n)
-  | s :: r =>
-    let '(s', n1) := prep_stmt n s in
-    let '(r', n2) := prep_stmts n1 r in
-    (s' :: r', n2)
-  end
 with prep_stmt (n : N) (s : stmt) {struct s} : stmt * N :=
+  let prep_stmts := fix pss (n : N) (l : list stmt) {struct l} : list stmt * N :=
+    match l with
+    | [] => ([], n)
+    | x :: r => let '(x', n1) := prep_stmt n x in let '(r', n2) := pss n1 r in (x' :: r', n2)
+    end in
   match s with
   | SExpr l e => let '(e', n1) := prep_expr n e in (SExpr l e', n1)
   | SVar l x None => (s, n)
@@ -146,6 +148,12 @@ with prep_stmt (n : N) (s : stmt) {struct s} : stmt * N :=
                      | Some fb => let '(fb', k) := prep_stmts n2 fb in (Some fb', k)
                      end in
     (STry l b' c' f', n3)
+  end.
+
+Fixpoint prep_stmts (n : N) (l : list stmt) : list stmt * N :=
+  match l with
+  | [] => ([], n)
+  | x :: r => let '(x', n1) := prep_stmt n x in let '(r', n2) := prep_stmts n1 r in (x' :: r', n2)
   end.
 
 Definition prep_program (p : program) : program := fst (prep_stmts 0%N p).
